@@ -22,17 +22,19 @@ use push::{
 use rand::{distr::Distribution, Rng};
 use vh_core::{catch, fnv_str, json, mix, shard::run_shards, Args, Report, TraceRng, Xo};
 
-/// A gene that is not a bool: negation toggles a flag and keeps the payload.
+/// A gene that is not a bool: negation toggles a flag, keeps the payload and counts how often it
+/// was applied (a negation that is not an involution: "unchanged or negated" means at most once).
 #[derive(Clone, Copy, Debug, PartialEq, Eq)]
 pub struct Flag {
     pub pos: u32,
     pub flipped: bool,
+    pub times: u8,
 }
 
 impl std::ops::Not for Flag {
     type Output = Flag;
     fn not(self) -> Flag {
-        Flag { pos: self.pos, flipped: !self.flipped }
+        Flag { pos: self.pos, flipped: !self.flipped, times: self.times.saturating_add(1) }
     }
 }
 
@@ -74,7 +76,7 @@ fn flips(seed: u64, shard: usize, rounds: usize, rep: &mut Report) {
         let len = if g.chance(1, 60) { *g.pick(&[63usize, 64, 65, 100, 127, 128, 129, 255, 256, 257, 1000, 1024, 1025, 4097]) } else { g.usize_below(41) };
         let rate = if g.chance(1, 3) { g.f64() as f32 } else { *g.pick(&rates()) };
         let bits: Vec<bool> = (0..len).map(|_| g.chance(1, 2)).collect();
-        let flags: Vec<Flag> = (0..len as u32).map(|pos| Flag { pos, flipped: false }).collect();
+        let flags: Vec<Flag> = (0..len as u32).map(|pos| Flag { pos, flipped: false, times: 0 }).collect();
         let s = g.next();
         let cfg = format!("len={len} rate={rate}");
         rep.distinct(fnv_str(&format!("{cfg}{}", s % 64)));
@@ -124,7 +126,11 @@ fn flips(seed: u64, shard: usize, rounds: usize, rep: &mut Report) {
         match catch(|| m.mutate(flags.clone(), &mut TraceRng::stream(s))) {
             Ok(Ok(c)) => {
                 if c.len() != len || c.iter().enumerate().any(|(i, f)| f.pos as usize != i) {
-                    rep.violation("C11/WithRate/Vec<Flag>/moved", || json!({"config": cfg, "child": format!("{c:?}")}));
+                    rep.violation("C11/WithRate/Vec<Flag>/moved", || json!({"config": cfg, "child": format!("{c:?}").chars().take(2000).collect::<String>()}));
+                } else if let Some(f) = c.iter().find(|f| f.times > 1) {
+                    rep.violation("C11/WithRate/Vec<Flag>/negated-more-than-once", || json!({"config": cfg, "gene": format!("{f:?}")}));
+                } else if (rate <= 0.0 && c.iter().any(|f| f.times != 0)) || (rate >= 1.0 && c.iter().any(|f| f.times != 1)) {
+                    rep.violation("C11/WithRate/Vec<Flag>/degenerate-rate", || json!({"config": cfg}));
                 }
             }
             other => rep.violation("C11/WithRate/Vec<Flag>/failed", || json!({"config": cfg, "observed": format!("{other:?}")})),
@@ -134,7 +140,9 @@ fn flips(seed: u64, shard: usize, rounds: usize, rep: &mut Report) {
         match catch(|| WithOneOverLength.mutate(flags.clone(), &mut TraceRng::stream(s))) {
             Ok(Ok(c)) => {
                 if c.len() != len || c.iter().enumerate().any(|(i, f)| f.pos as usize != i) {
-                    rep.violation("C11/WithOneOverLength/Vec<Flag>/moved", || json!({"config": cfg, "child": format!("{c:?}")}));
+                    rep.violation("C11/WithOneOverLength/Vec<Flag>/moved", || json!({"config": cfg, "child": format!("{c:?}").chars().take(2000).collect::<String>()}));
+                } else if let Some(f) = c.iter().find(|f| f.times > 1) {
+                    rep.violation("C11/WithOneOverLength/Vec<Flag>/negated-more-than-once", || json!({"config": cfg, "gene": format!("{f:?}")}));
                 }
             }
             other => rep.violation("C11/WithOneOverLength/Vec<Flag>/failed", || json!({"config": cfg, "observed": format!("{other:?}")})),
